@@ -231,7 +231,7 @@ structure TextOK (env : Env) (t : Line) : Prop where
   no_nl : '\n' ∉ t
   no_cr : t.getLast? ≠ some '\r'
   no_lead : commandLead t = none
-  no_exit : extractExitCode t = none
+  no_exit : isExitCodeForm t = false
   exp_ok : env.expOk t = true
 
 theorem langOK_scrut : Update.LangOK language := by unfold Update.LangOK language; decide
@@ -280,7 +280,7 @@ theorem exitCodes_after {env : Env} (ts : List Line) (hts : ∀ t ∈ ts, TextOK
     exitCodes (ts ++ exitLines code) = if code ≠ 0 then [code.toNat] else [] := by
   have h : ts.filterMap extractExitCode = [] := by
     rw [List.filterMap_eq_nil_iff]
-    exact fun t ht => (hts t ht).no_exit
+    exact fun t ht => extractExitCode_of_not_form (hts t ht).no_exit
   unfold exitCodes exitLines
   rw [List.filterMap_append, h]
   split
@@ -292,7 +292,7 @@ theorem expLines_after {env : Env} (ts : List Line) (hts : ∀ t ∈ ts, TextOK 
   have h : ts.filter (fun a => (extractExitCode a).isNone) = ts := by
     rw [List.filter_eq_self]
     intro t ht
-    simp [(hts t ht).no_exit]
+    simp [extractExitCode_of_not_form (hts t ht).no_exit]
   unfold expLines exitLines
   rw [List.filter_append, h]
   split
@@ -344,9 +344,9 @@ theorem createBlock_wf (env : Env) (hlang : env.languages = [language])
   · show (exitCodes (ts ++ exitLines code)).length ≤ 1
     rw [exitCodes_after ts hts code h0 h1]
     split <;> simp
-  · show ∀ e ∈ expLines (ts ++ exitLines code), env.expOk e = true
+  · show ∀ e ∈ expLines (ts ++ exitLines code), env.expOk e = true ∧ isExitCodeForm e = false
     rw [expLines_after ts hts code h0 h1]
-    exact fun e he => (hts e he).exp_ok
+    exact fun e he => ⟨(hts e he).exp_ok, (hts e he).no_exit⟩
   · show match ts ++ exitLines code with | a :: _ => stripPrefix ['>', ' '] a = none | [] => True
     cases ts with
     | nil =>
